@@ -286,7 +286,12 @@ def gen_edge(rng, n, tier):
             m = rng.randint(1, 5)
             base = rand_geo(rng, model=False)
             pts = [[max(-180.0, min(180.0, base[0] + rng.uniform(-0.2, 0.2))), max(-89.9, min(89.9, base[1] + rng.uniform(-0.2, 0.2))), rng.uniform(-1000, 10000)] for _ in range(m)]
-            out.append({'kind': 'track', 'pts': pts, 'base': base if rng.random() < 0.7 else None,
+            becef = rng.random() < 0.3
+            if becef and rng.random() < 0.5:
+                # "for any base point": a base a couple of kilometres from a pole (not on the axis), the fixes at the edge of the latitude domain
+                base = [base[0], rng.choice([89.98, -89.98, 89.97, -89.96]), rng.choice([0.0, 2835.0, 120.0])]
+                pts = [[max(-180.0, min(180.0, base[0] + rng.uniform(-30, 30))), math.copysign(89.9 - rng.uniform(0, 0.3), base[1]), rng.uniform(-1000, 10000)] for _ in range(m)]
+            out.append({'kind': 'track', 'pts': pts, 'becef': becef, 'base': base if (becef or rng.random() < 0.7) else None,
                         'base2': [max(-180.0, min(180.0, base[0] + rng.uniform(-0.1, 0.1))), max(-89.9, min(89.9, base[1] + rng.uniform(-0.1, 0.1))), rng.uniform(-100, 1000)] if rng.random() < 0.6 else None})
     return out
 
@@ -336,6 +341,8 @@ def run_edge(case):
                 'geo': [[o.position.getX(), o.position.getY(), o.position.getZ()] for o in tr], 'n': tr.size()}
     tr = Track([Obs(GeoCoords(*p), ObsTime.readUnixTime(1000 + 10 * i)) for i, p in enumerate(pts)])
     base = GeoCoords(*case['base']) if case['base'] else None
+    if base is not None and case.get('becef'):
+        base = base.toECEFCoords()                 # the base handed over in Earth-centred coordinates, as the signature allows (the track records it in geographic form)
     tr.toENUCoords(base) if base else tr.toENUCoords()
     used = base if base else GeoCoords(*pts[0])
     expect = [GeoCoords(*p).toENUCoords(used) for p in pts]
